@@ -1,8 +1,9 @@
 #!/usr/bin/env python3
 """C13 — Pareto dominance, non-dominated sorting, hypervolume: proofs (Properties_C13.v) +
-correspondence (extracted model: rank_list / fast_nds / hv_spec / hv2d / contribs_spec /
-best_subset_hv vs. the freshly compiled Shark algorithms on integer point sets) + an independent
-spec monitor in this file (ranks by longest dominance chain, hypervolume by slab-wise HSO)."""
+correspondence (extracted model: rank_list / fast_nds / hv_spec / hv2d / hv3d (3-D sweep) / wfg +
+wfg_limit (WFG recursion and its limit set) / contribs_spec / best_subset_hv vs. the freshly compiled
+Shark algorithms on integer point sets) + an independent spec monitor in this file (ranks by longest
+dominance chain, hypervolume by slab-wise HSO)."""
 import os, sys, re, itertools
 sys.path.insert(0, os.path.dirname(os.path.abspath(__file__)))
 from vlib import *
@@ -35,6 +36,12 @@ def spec_hv(P, ref):
 def spec_contribs(P, ref):
     h = spec_hv(P, ref)
     return [h - spec_hv(P[:i] + P[i + 1:], ref) for i in range(len(P))]
+
+def spec_limit(P):
+    """limit set of the first point w.r.t. the others: non-dominated members of {max(q, p0)}, duplicates kept"""
+    L = [[max(a, b) for a, b in zip(q, P[0])] for q in P[1:]]
+    keep = sorted(q for q in L if not any(dom(r, q) for r in L))
+    return "/".join(",".join(map(str, q)) for q in keep) if keep else "none"
 
 def front_size(P):
     return len(set(tuple(p) for p in P if not any(dom(q, p) for q in P)))
@@ -177,6 +184,10 @@ def compare(a, b, lines_holder=[None]):
             for name in ("disp", "a3", "hoy", "wfg"):
                 if fy.get(name, "-") != "-" and float(fy[name]) != int(fx["spec"]): return False
             if fx["a2"] != "-" and float(fy["a2"]) != int(fx["a2"]): return False
+            # the models of the 3-D sweep and of the WFG recursion run next to the code
+            if fx["a3"] != "-" and float(fy["a3"]) != int(fx["a3"]): return False
+            if fx["wfg"] != "-" and fy.get("wfg", "-") != "-" and float(fy["wfg"]) != int(fx["wfg"]): return False
+            if fx["lim"] != fy.get("lim", "?"): return False      # limitSet(points[1..], points[0]) as a sorted multiset
         elif kind == "K":
             if "empty" in x or "empty" in y:
                 if x != y: return False
@@ -274,7 +285,8 @@ def load_cases(ck, gen, n):
 def model_checks(ck, cases, model_out):
     """consistency inside the model run: unproved model parts against the proved spec values"""
     bad = []
-    stats = {"fast_nds=rank_list": 0, "contrib2d_ref=contrib_spec": 0, "best_subset(model)=best_subset(monitor)": 0}
+    stats = {"fast_nds=rank_list": 0, "contrib2d_ref=contrib_spec": 0, "best_subset(model)=best_subset(monitor)": 0,
+             "hv3d=hv_spec": 0, "wfg=hv_spec": 0, "wfg_limit=python_limit": 0}
     for c, (o, rc, _) in zip(cases, model_out):
         q, d, k, ref, P, hasE = parse_case(c)
         if not hasE: continue
@@ -288,6 +300,15 @@ def model_checks(ck, cases, model_out):
         elif q == "H":
             if int(f["spec"]) != spec_hv(P, ref): bad.append(("hv_spec differs from the Python slab HSO", c, r))
             if f["a2"] != "-" and f["a2"] != f["spec"]: bad.append(("hv2d model differs from hv_spec", c, r))
+            if f["a3"] != "-":
+                stats["hv3d=hv_spec"] += 1
+                if f["a3"] != f["spec"]: bad.append(("hv3d model (3-D sweep) differs from hv_spec", c, r))
+            if f["wfg"] != "-":
+                stats["wfg=hv_spec"] += 1
+                if f["wfg"] != f["spec"]: bad.append(("wfg model differs from hv_spec", c, r))
+            if f["lim"] != "-":
+                stats["wfg_limit=python_limit"] += 1
+                if f["lim"] != spec_limit(P): bad.append(("wfg_limit model differs from the Python limit set", c, r))
         elif q == "K" and P:
             if ints(f["spec"]) != spec_contribs(P, ref): bad.append(("contribs_spec differs from the Python contributions", c, r))
             if f["c2d"] != "-":
@@ -301,13 +322,14 @@ def model_checks(ck, cases, model_out):
     for what, c, r in bad[:3]:
         cf = ck.write_replay("model_%d.txt" % len(ck.violations), "\n".join(c) + "\n")
         ck.violation("model-consistency:" + what, {"case_file": cf, "case": c, "model_output": r}, "model-internal consistency: " + what, no_input=True)
-    ck.oblige("model-internal consistency (fast_nds=rank_list, hv2d=hv_spec, contrib2d_ref=contribs_spec, Coq spec=Python spec) on every case", not bad, "%d failures" % len(bad))
+    ck.oblige("model-internal consistency (fast_nds=rank_list, hv2d=hv3d=wfg=hv_spec, wfg_limit=Python limit set, contrib2d_ref=contribs_spec, Coq spec=Python spec) on every case", not bad, "%d failures" % len(bad))
     return stats
 
 def main():
     ck = Check(PID)
     ck.trusted = DEFAULT_TRUSTED + ["modelled not verified: std::sort / heap algorithms of libstdc++ ('some arrangement sorted by the key'; theorem C13_hv2d_correct_any_tie_order quantifies over all of them)",
-                                    "not proved, differential test only: fast_nds model = rank_list, DC sort, 3-D sweep, HOY, WFG, all contribution algorithms, 2-D subset selection"]
+                                    "modelled not verified: nonDominatedSort inside WFG's limitSet is taken to compute rank_list (proved for fastNonDominatedSort, differential test for the DC sort and the dispatcher: query R; the limit set itself is compared on every H query)",
+                                    "not proved, differential test only: DC sort, dispatchers, HOY, 3-D/MD contributions, 2-D subset selection"]
     ck.assumptions = ["integer objective values (products of at most 5 integers <= 13 are exact in double, comparison is equality; MD contributions use exp(sum(log)) and are compared at 1e-9 relative to the total hypervolume)",
                       "reference point weakly dominated by every point (ref_i >= max coordinate, mostly strictly)",
                       "contribution queries: mutually non-dominated sets with duplicates, 1 <= k <= n, overloads WITH reference point in the main stream; overloads without reference point in a separate stream",
@@ -335,7 +357,7 @@ def main():
         touch = q != "R" and any(x == r for p in P for x, r in zip(p, ref))
         return "%s d=%d n=%d%s: %s" % (q, d, len(P), " point-on-reference-boundary" if touch else "", msg)
     r = correspond(ck, main_cases, model, exe, monitor, tmpd, compare=compare, impl_env=env,
-                   what="C13Model (rank_list, hv_spec, contribs_spec, best_subset_hv) vs shark nonDominatedSort/Hypervolume*",
+                   what="C13Model/C13Wfg/C13Sweep3d (rank_list, hv_spec, hv2d, hv3d, wfg, wfg_limit, contribs_spec, best_subset_hv) vs shark nonDominatedSort/Hypervolume*",
                    search=search, keyfn=keyfn)
     stats = model_checks(ck, main_cases, r["model_out"])
 
@@ -387,7 +409,8 @@ def main():
     ck.cov["traces_validated_against_impl"] = len(main_cases)
     ck.cov["disagreements_checked"] = r["disagreements"] + r["monitor_failures"]
     ck.notes["query_mix"] = kinds; ck.notes["objectives_mix"] = dims; ck.notes["model_internal_checks"] = stats
-    ck.finish(explanation="dominance, rank definition (existence/uniqueness/consistent fronts), hv_spec invariances and the 2-D sweep are proved; "
+    ck.finish(explanation="dominance, rank definition (existence/uniqueness/consistent fronts), fast sort, hv_spec invariances, the 2-D sweep, the 3-D sweep, "
+              "the WFG recursion and the 2-D contributions are proved (models run next to the code on every case); "
               "everything else is an exact differential test against the proved spec functions")
 
 if __name__ == "__main__":
